@@ -447,8 +447,8 @@ fn run_child(spec: &Value) -> (Option<i32>, Option<i32>, String) {
 
 pub async fn run(args: &Args, rep: &mut Reporter) {
     let mut rng = Rng::new(args.shard_seed() ^ 0xC13);
-    let per_op_points = args.by_tier(6usize, 64usize);
-    let histories = args.by_tier(1usize, 4usize);
+    let per_op_points = args.by_tier(6usize, 20usize);
+    let histories = args.by_tier(1usize, 3usize);
     // can this environment trace at all? (ptrace may be forbidden in a sandbox)
     let strace_ok = Command::new("strace").arg("-o").arg("/dev/null").arg("true").output().map(|o| o.status.success()).unwrap_or(false);
     if !strace_ok {
